@@ -112,7 +112,7 @@ Definition MAX_LICH_FRAGMENT : N := 5.
 Definition decode_lich (s : dstate) (fr : list Z) : outcome :=
   let '(lich, ok) := unpack_lich fr in
   let h1 := set_ubuf (d_hid s) lich in
-  if negb ok then (mkst (d_mode s) (d_seg s) (d_lsf s) h1, RFail, None, []) else
+  if negb ok then (mkst (d_mode s) (d_seg s) (d_lsf s) h1, RFail, Some 128%Z, []) else
   let cb1 := mkcb FLich lich 0 in
   let fragment_number := N.land (N.shiftr (nth 5 lich 0) 5) 7 in
   if MAX_LICH_FRAGMENT <? fragment_number then
